@@ -159,3 +159,34 @@ def fileWounds (bs maxSize : Nat) (S : List Byte) (fi : Nat) : OnDisk → List W
 def realWounds (ws : List Wound) : List Wound := ws.filter (fun w => !w.healthy)
 
 end Wharf.Validate
+
+namespace Wharf.Validate
+
+/-! ### signature reading and hash grouping (pwr/sign.go:ReadSignature, pwr/hashinfo.go) -/
+
+/-- `ReadSignature`'s loop: how many hashes are taken for each file when `avail` hash messages follow the
+    container (a missing hash ends that file's inner loop quietly; for an empty file it ends everything).
+    Returns the number of hashes read in total. -/
+def readSigCount (bs : Nat) : List Nat → Nat → Nat
+  | [], _ => 0
+  | size :: rest, avail =>
+    let nb := Rsync.numBlocks bs size
+    if nb = 0 then
+      if avail = 0 then 0 else 1 + readSigCount bs rest (avail - 1)
+    else
+      let got := min nb avail
+      got + readSigCount bs rest (avail - got)
+
+/-- `ComputeHashInfo`: walks the flat hash list; a group that would reach past the hashes that were read is
+    an error (as is a leftover), never an out-of-range slice. Returns the groups as (start, length). -/
+def hashGroups (bs : Nat) : List Nat → Nat → Nat → Outcome (List (Option (Nat × Nat)))
+  | [], hashIndex, n => if hashIndex ≠ n then .err "expected to have a different number of hashes" else .ok []
+  | size :: rest, hashIndex, n =>
+    if size = 0 then
+      (hashGroups bs rest (hashIndex + 1) n).bind fun gs => .ok (none :: gs)
+    else
+      let nb := Rsync.numBlocks bs size
+      if hashIndex + nb > n then .err "signature has too few hashes"
+      else (hashGroups bs rest (hashIndex + nb) n).bind fun gs => .ok (some (hashIndex, nb) :: gs)
+
+end Wharf.Validate
